@@ -363,6 +363,23 @@ def case_stock_driven(prog, cfg):
             d = first_diff(r2[k], res_id[k])
             q = meth if k == "inflow" else ("StockDrivenDSM._compute_cohorts_and_inflow" if k == "_stock_by_cohort" else "DynamicStockModel._compute_outflow")
             case.v("inverse", d is None, f"feeding the inflow-driven stock into the stock-driven model ({solver}) does not return {what}: {d}", q)
+    # the documented hand-over: the inflow-driven object converted with to_stock_type (same lifetime model, same settings)
+    if cfg.get("via_to_stock_type"):
+        for solver in ("manual", "lapack"):
+            def conv(solver=solver):
+                st0, _, _ = inflow_driven(sw, dist, cfg)
+                s2 = sw.it.call_method(st0, "to_stock_type", sw.prog.cls("StockDrivenDSM"), solver=solver)
+                sw.it.call_method(s2, "compute")
+                return s2
+            kind, s2 = run_guarded(conv)
+            meth = "Stock.to_stock_type"
+            if kind != "ok":
+                case.v("inverse", False, f"to_stock_type(StockDrivenDSM, solver={solver!r}) + compute() ended with {kind}: {s2}", meth)
+                continue
+            r2 = results(s2)
+            for k, what in (("inflow", "the original inflow"), ("outflow", "the same outflow"), ("_stock_by_cohort", "the same stock-by-cohort table")):
+                d = first_diff(r2.get(k), res_id[k])
+                case.v("inverse", d is None, f"inflow-driven model converted with to_stock_type to the stock-driven model ({solver}) does not return {what}: {d}", meth)
     if len(per_solver) == 2:
         bad = None
         for k in per_solver["manual"]:
